@@ -36,8 +36,8 @@ type vC11Body struct {
 
 // vC11Case identifies one evaluated case; it is also the replay artefact.
 type vC11Case struct {
-	Half       string `json:"half"`    // broker | proxy
-	Mode       string `json:"mode"`    // broker: inproc | wire ; proxy: ready | notready | backend-down
+	Half       string `json:"half"` // broker | proxy
+	Mode       string `json:"mode"` // broker: inproc | wire ; proxy: ready | notready | backend-down
 	Key        int16  `json:"key"`
 	Version    int16  `json:"version"`
 	Body       string `json:"body"`
